@@ -63,6 +63,12 @@ func (e *Exec) libModel(st *State, callee *ssa.Function, cc *ssa.CallCommon, arg
 	set := func(v Val) { e.setResult(st, dst, v) }
 	pos := cc.Pos()
 	switch name {
+	case "gopkg.in/inf.v0.NewDecBig", "gopkg.in/inf.v0.NewDec", "math/big.NewInt":
+		used()
+		r := e.freshVal(st, "newobj", resT)
+		e.assume(st, fmt.Sprintf("(not (= %s 0))", r.S))
+		set(r)
+		return true, true, nil
 	case "fmt.Errorf", "errors.New":
 		used()
 		set(e.newError(st, resT))
@@ -305,6 +311,14 @@ func (e *Exec) reflectModel(st *State, name string, callee *ssa.Function, cc *ss
 		e.check(st, "make", "reflect.MakeSlice:"+e.srcText(pos), and(e.le(e.sc.idxLit(0), l), e.le(l, c), e.le(c, e.sc.idxLit(maxLen))), pos)
 		e.allocCheck(st, e.curInstr, l, c)
 		e.setResult(st, dst, e.freshVal(st, "rv", resT))
+		return true, true, nil
+	case "(reflect.Value).Type", "reflect.TypeOf":
+		e.libUsed["lib:"+name] = true
+		if name == "reflect.TypeOf" {
+			e.setResult(st, dst, e.freshVal(st, "rtype", resT))
+		} else {
+			e.setResult(st, dst, e.nonNilIface(st, "rtype", resT))
+		}
 		return true, true, nil
 	case "reflect.MakeMapWithSize":
 		e.libUsed["lib:"+name] = true
